@@ -176,7 +176,13 @@ func genRawValid(g *rand.Rand, tier string) any {
 				sc = append(sc, RBody)
 			}
 			if g.IntN(6) != 0 {
-				sc = append(sc, []int{RTrailerOK, RTrailerOK, RTrailerNoStatus, RTrailerErr, RReset}[g.IntN(5)])
+				end := []int{RTrailerOK, RTrailerOK, RTrailerNoStatus, RTrailerErr, RReset, RBodyTrailer}[g.IntN(6)]
+				if end == RBodyTrailer && c.Kind == KCStream && nb == 1 {
+					// the single reply of a client-streaming RPC rides with the trailer
+					// (README: "Client <- Server: id, header, body, status?, trailer")
+					sc = sc[:len(sc)-1]
+				}
+				sc = append(sc, end)
 			} // else: the peer never finishes the stream; the connection ends instead
 		}
 		p.Calls = append(p.Calls, c)
@@ -452,6 +458,7 @@ type foreignExp struct {
 	bodies  int
 	end     int // 0 none seen, 1 success, 2 error status, 3 reset
 	unaryOK bool
+	lastWithTrailer bool // the last message shares its envelope with the trailer
 }
 
 func checkForeign(e *Env, sim *Sim, p *RawSrvParams, closed bool) {
@@ -472,6 +479,10 @@ func checkForeign(e *Env, sim *Sim, p *RawSrvParams, closed bool) {
 		case RUnaryOK, RUnaryExplicitOK:
 			x.bodies++
 			x.end = 1
+		case RBodyTrailer:
+			x.bodies++
+			x.end = 1
+			x.lastWithTrailer = true
 		case RUnaryErr, RTrailerErr:
 			x.end = 2
 		case RTrailerOK, RTrailerNoStatus:
@@ -516,6 +527,10 @@ func checkForeign(e *Env, sim *Sim, p *RawSrvParams, closed bool) {
 		}
 		if x.end != 0 && c.Kind != KUnary && len(got) != x.bodies && (x.end == 1) {
 			e.Violate("C05", "message-count", kindNames[c.Kind], "call %d: received %d messages, %d were addressed to it before the end of the stream", id, len(got), x.bodies)
+		}
+		if c.Kind == KCStream && x.end == 1 && x.lastWithTrailer && len(got) == 0 && r.CFinalSet {
+			// what the generated CloseAndRecv returns is the first RecvMsg's result
+			e.Violate("C03", "failure-on-success", "cstream.reply-with-trailer", "call %d: the peer answered the client-streaming call with its reply, OK status and trailer in one envelope (the shape README.md gives); the first RecvMsg returned %v instead of the reply", id, r.CFinal)
 		}
 		// C03: outcome
 		switch x.end {
